@@ -148,6 +148,9 @@ class StateInvariantsRemover(engines.engine.Engine, CompilerMixin):
         env = problem.environment
         em = env.expression_manager
         new_problem = Problem(f"{problem.name}_{self.name}", env)
+        new_problem.epsilon = problem.epsilon
+        new_problem.discrete_time = problem.discrete_time
+        new_problem.self_overlapping = problem.self_overlapping
         new_problem.add_objects(problem.all_objects)
         new_problem.add_fluents(problem.fluents)
 
